@@ -1073,6 +1073,50 @@ func (in *Interp) sliceOp(fr *Frame, x *ssa.Slice) Value {
 	base := in.get(fr, x.X)
 	var lo, hi, max int
 	hasLo, hasHi, hasMax := x.Low != nil, x.High != nil, x.Max != nil
+	// symbolic bounds: decide validity with one query (panic branch), then concretise
+	{
+		capN, lenN := -1, -1
+		switch b := base.(type) {
+		case Str:
+			capN, lenN = b.Len(), b.Len()
+		case Slice:
+			capN, lenN = b.Cap, b.Len
+		case Pointer:
+			if pt, ok := x.X.Type().Underlying().(*types.Pointer); ok {
+				if at, ok := pt.Elem().Underlying().(*types.Array); ok {
+					capN, lenN = int(at.Len()), int(at.Len())
+				}
+			}
+		}
+		sym := false
+		get64 := func(v ssa.Value, def int) *term.Term {
+			if v == nil {
+				return term.Const(64, uint64(def))
+			}
+			t := in.get(fr, v).(*term.Term)
+			if t.K != term.KConst {
+				sym = true
+			}
+			if t.W < 64 {
+				if _, sg, _ := intWidth(v.Type()); sg {
+					return term.Sext(t, 64)
+				}
+				return term.Zext(t, 64)
+			}
+			return t
+		}
+		if capN >= 0 {
+			tlo := get64(x.Low, 0)
+			thi := get64(x.High, lenN)
+			tmax := get64(x.Max, capN)
+			if sym {
+				valid := term.BAnd(term.Sle(term.Const(64, 0), tlo), term.Sle(tlo, thi), term.Sle(thi, tmax), term.Sle(tmax, term.Const(64, uint64(capN))))
+				if !in.decide(valid, nil, nil) {
+					in.goPanicRuntime("slice bounds out of range [symbolic]")
+				}
+			}
+		}
+	}
 	if hasLo {
 		lo = in.toInt(in.get(fr, x.Low), "slice low")
 	}
